@@ -13,6 +13,18 @@ WORLD_RULE = ("state = canonical dump of the real PubSub/router/score object gra
 ALL_PROPERTIES = ["C%02d" % i for i in range(1, 21)]
 
 CHECKS = {
+    "C06": {
+        "level": "model_checking", "shards": 5, "deadline_quick": 100, "deadline_thorough": 1500,
+        "engine": "E-WORLD",
+        "technique": "explicit-state model checking of the implementation: BFS by replay around one real node (three routers) with scripted peers of five protocol versions; recipient-set oracle on the wire log",
+        "rule": WORLD_RULE,
+        "level_text": "every history up to the depth bound over subscriptions, GRAFT/PRUNE, IDONTWANT, score levels on both sides of the publish threshold, direct peers, join/leave/relay, "
+                      "heartbeats and fanout expiry, followed by remote / local / local-only publications under gossipsub (with and without flood publishing), floodsub and randomsub; "
+                      "never-set, always-set and byte-equality of every copy are judged from the pre-publish in-loop snapshot",
+        "level_note": "acceptance is decided by an independent oracle (subscription, dedup, self-origin, graylist, blacklist); the inclusion rules are only required where an ungated outbound queue exists",
+        "assumptions": COMMON_ASSUME,
+        "design_ref": "DESIGN.md §5 C06",
+    },
     "C07": {
         "level": "model_checking", "shards": 16, "deadline_quick": 100, "deadline_thorough": 1500,
         "engine": "E-WORLD",
